@@ -118,6 +118,13 @@ class Emitter:
         if e.get("skip") is True:
             lines.append("#[command(skip_autocomplete, skip_help)]")
             self.items.append(SKIP_IMPLS.replace("IDENT", ident).replace("LT", lt))
+        elif e.get("skip") == "hf":
+            # skip_help with a hand-written Help that delegates to the twin and then adds a footer that does NOT end with a line feed
+            twin = dict(e)
+            twin["skip"] = None
+            self.emit_enum(twin, ident + "T")
+            lines.append("#[command(skip_help)]")
+            self.items.append(SKIP_HF.replace("IDENT", ident).replace("LT", lt))
         elif e.get("skip") in ("a", "h"):
             # only ONE of the two derives is skipped; the hand-written impl delegates to a twin enum with the same declaration whose
             # derives are complete, so the behaviour must be that of the plain declaration
@@ -333,6 +340,24 @@ SKIP_H = """implLT embedded_cli::service::Help for IDENTLT {
 }
 """
 
+SKIP_HF = """implLT embedded_cli::service::Help for IDENTLT {
+    #[cfg(feature = "help")]
+    fn command_count() -> usize { <IDENTT as embedded_cli::service::Help>::command_count() }
+    #[cfg(feature = "help")]
+    fn list_commands<W: embedded_io::Write<Error = E>, E: embedded_io::Error>(writer: &mut embedded_cli::writer::Writer<'_, W, E>) -> Result<(), E> {
+        <IDENTT as embedded_cli::service::Help>::list_commands(writer)?;
+        writer.write_str("-- end of list")
+    }
+    #[cfg(feature = "help")]
+    fn command_help<W: embedded_io::Write<Error = E>, E: embedded_io::Error, F: FnMut(&mut embedded_cli::writer::Writer<'_, W, E>) -> Result<(), E>>(
+        parent: &mut F, command: embedded_cli::command::RawCommand<'_>, writer: &mut embedded_cli::writer::Writer<'_, W, E>,
+    ) -> Result<(), embedded_cli::service::HelpError<E>> {
+        <IDENTT as embedded_cli::service::Help>::command_help(parent, command, writer)?;
+        writer.write_str("(more in the manual)").map_err(embedded_cli::service::HelpError::WriteError)
+    }
+}
+"""
+
 HEADER = """//! GENERATED by gen/declgen.py - do not edit. Derived command sets compiled with the repository's macros.
 #![allow(dead_code, unused_imports, unused_variables, non_camel_case_types, clippy::all)]
 use crate::session::{run_session, Sink, SinkErr, PROMPTS};
@@ -355,6 +380,55 @@ def render_rust(sets):
     for k, s in enumerate(sets):
         em.emit_set(k, s)
     arms = "\n".join('        "d%d" => ses_d%d(cap, hcap, pi, ops),' % (k, k) for k in range(len(sets)))
+    # the README's shape: a group whose last member is the library's own RawCommand (a catch-all that parses everything, completes
+    # nothing and knows no command in help) next to the derived enum of set 0. Not modelled: judged by oracles only.
+    base = em.enum_ident(sets[0]["enum"])
+    em.items.append("""
+#[derive(Debug, Clone, CommandGroup, PartialEq)]
+pub enum GRaw<'a> {
+    Base(%s),
+    Other(embedded_cli::command::RawCommand<'a>),
+}
+fn ses_draw(cap: usize, hcap: usize, pi: usize, ops: &str) -> String {
+    let mut cbuf = vec![0u8; cap];
+    let mut hbuf = vec![0u8; hcap];
+    let mut cli = CliBuilder::default().writer(Sink::new()).command_buffer(cbuf.as_mut_slice()).history_buffer(hbuf.as_mut_slice()).prompt(PROMPTS[pi]).build().unwrap();
+    let calls: Rc<RefCell<Vec<String>>> = Rc::new(RefCell::new(vec![]));
+    let calls2 = calls.clone();
+    let mut processor = GRaw::processor(move |cli: &mut CliHandle<'_, Sink, SinkErr>, cmd: GRaw<'_>| {
+        let c = match &cmd {
+            GRaw::Base(x) => x.canon(),
+            GRaw::Other(r) => format!("R{}", hexs(r.name())),
+        };
+        calls2.borrow_mut().push(c.clone());
+        cli.writer().write_str(&c)?;
+        Ok(())
+    });
+    run_session(&mut cli, &calls, ops, |cli, b| cli.process_byte::<GRaw<'_>, _>(b, &mut processor))
+}
+""" % base)
+    arms += '\n        "draw" => ses_draw(cap, hcap, pi, ops),'
+    # a hand-written Help (the public trait) whose text does not end with a line break: the library must still put the prompt on a fresh line
+    foot = dict(sets[0]["enum"])
+    foot["skip"] = "hf"
+    fid = em.enum_ident(foot)
+    em.items.append("""
+fn ses_dfoot(cap: usize, hcap: usize, pi: usize, ops: &str) -> String {
+    let mut cbuf = vec![0u8; cap];
+    let mut hbuf = vec![0u8; hcap];
+    let mut cli = CliBuilder::default().writer(Sink::new()).command_buffer(cbuf.as_mut_slice()).history_buffer(hbuf.as_mut_slice()).prompt(PROMPTS[pi]).build().unwrap();
+    let calls: Rc<RefCell<Vec<String>>> = Rc::new(RefCell::new(vec![]));
+    let calls2 = calls.clone();
+    let mut processor = %s::processor(move |cli: &mut CliHandle<'_, Sink, SinkErr>, cmd: %s| {
+        let c = cmd.canon();
+        calls2.borrow_mut().push(c.clone());
+        cli.writer().write_str(&c)?;
+        Ok(())
+    });
+    run_session(&mut cli, &calls, ops, |cli, b| cli.process_byte::<%s, _>(b, &mut processor))
+}
+""" % (fid, fid, fid))
+    arms += '\n        "dfoot" => ses_dfoot(cap, hcap, pi, ops),'
     tail = """
 pub fn decl(_line: &str) -> String {
     "%d".to_string()
@@ -869,6 +943,25 @@ def signed_boundary_lines(rng, c, prefix=()):
                 toks.append(sample_value(rng, b["ty"], True))
             toks.append(("-0" if v == 0 and str(v) == "0" and rng.randrange(2) else str(v)))
             lines.append(" ".join(q(t) for t in toks))
+    return lines
+
+def double_dash_lines(rng, c, prefix=()):
+    """lines with MORE THAN ONE `--`: the first ends option parsing, every later one is a plain value (a positional `--`, or an
+    unexpected argument when no positional is left)"""
+    pos = [a for a in c["args"] if a["kind"] == "pos"]
+    req_opts = [a for a in c["args"] if a["kind"] == "opt" and not a["optional"] and not a.get("default")]
+    head = list(prefix) + [cmd_name(c)]
+    for o in req_opts:
+        head += [("--" + arg_long(o)) if arg_long(o) else ("-" + arg_short(o)), sample_value(rng, o["ty"], True)]
+    lines = []
+    vals = ["--" if a["ty"] == "str" else sample_value(rng, a["ty"], True) for a in pos]
+    lines.append(" ".join(q(t) for t in head + ["--"] + vals))                    # `--` as the value of every str positional
+    lines.append(" ".join(q(t) for t in head + ["--"] + vals + ["--"]))           # one more: unexpected argument `--`
+    if pos:
+        first = sample_value(rng, pos[0]["ty"], True)
+        if not first.startswith("-"):
+            lines.append(" ".join(q(t) for t in head + [first, "--"] + vals[1:] + ["--", "--"]))
+    lines.append(" ".join(q(t) for t in head + ["--", "--", "--"]))
     return lines
 
 EDGE_VALUES = {
